@@ -147,11 +147,11 @@ _POLS = ("raise", "keep", "drop")
 FORM_NAMES = ("", " as a one-shot iterator", " as a NoteData object", " as a generator")
 
 
-def eval_group(L, M, rnotes, include, mode, join, oh, ot, pass_policies=True, pass_mode=True):
+def eval_group(L, M, rnotes, include, mode, join, oh, ot, pass_policies=True, pass_mode=True, inc_obj=None):
     """one evaluation of group_notes against the model; returns number of oracle evaluations"""
     kw = {}
     if include is not None:
-        kw["include_note_types"] = frozenset(L.T[c] for c in include)
+        kw["include_note_types"] = inc_obj if inc_obj is not None else frozenset(L.T[c] for c in include)
     if pass_mode:
         kw["same_beat_notes"] = L.MODE[mode]
     if join:
@@ -272,18 +272,26 @@ def full_stream_check(L, notes, include, count_too=True):
     rnotes = real_notes(L, notes)
     M = MG.Model(notes, include if include is not None else MG.ALL_TYPES)
     n = 0
+    # the include set is the caller's object: a plain set (as in the documentation's examples) or a frozenset, the very
+    # same object handed to every call of this stream - it must come back unchanged
+    io = None
+    if include is not None:
+        members = [L.T[c] for c in include]
+        io = set(members) if (len(include) + len(notes)) % 2 else frozenset(members)
     for mi, mode in enumerate(MG.MODES):
         for oh, ot in MG.POLICY_PAIRS[3 * mi : 3 * mi + 3]:  # ignored when joining is off; all 9 pairs over the 3 modes
-            n += eval_group(L, M, rnotes, include, mode, False, oh, ot)
+            n += eval_group(L, M, rnotes, include, mode, False, oh, ot, inc_obj=io)
         for oh, ot in MG.POLICY_PAIRS:
-            n += eval_group(L, M, rnotes, include, mode, True, oh, ot)
-        n += eval_group(L, M, rnotes, include, mode, False, "raise", "raise", pass_policies=False)
-        n += eval_group(L, M, rnotes, include, mode, True, "raise", "raise", pass_policies=False)
-    n += eval_group(L, M, rnotes, include, "separate", False, "raise", "raise", pass_policies=False, pass_mode=False)
-    n += eval_group(L, M, rnotes, include, "separate", True, "raise", "raise", pass_policies=False, pass_mode=False)
+            n += eval_group(L, M, rnotes, include, mode, True, oh, ot, inc_obj=io)
+        n += eval_group(L, M, rnotes, include, mode, False, "raise", "raise", pass_policies=False, inc_obj=io)
+        n += eval_group(L, M, rnotes, include, mode, True, "raise", "raise", pass_policies=False, inc_obj=io)
+    n += eval_group(L, M, rnotes, include, "separate", False, "raise", "raise", pass_policies=False, pass_mode=False, inc_obj=io)
+    n += eval_group(L, M, rnotes, include, "separate", True, "raise", "raise", pass_policies=False, pass_mode=False, inc_obj=io)
+    if io is not None:
+        need(set(io) == {L.T[c] for c in include}, lambda: f"group_notes changed the caller's include_note_types object: now {sorted(t.value for t in io)}, passed {include!r}")
     # count_steps with explicit include set / mode / minimum
     if include is not None:
-        inc = frozenset(L.T[c] for c in include)
+        inc = io
         for mode in MG.MODES:
             _, g = M.groups(mode, False)
             for k in (1, 2, 3, 4):
